@@ -1,7 +1,7 @@
 (* C14 — lemmas and proofs, part 1: products, the Horner loops of layout_right / layout_left,
    range, injectivity, bijectivity, stride steps, layout_stride. *)
 From Coq Require Import List ZArith Bool Lia.
-From DuneV Require Import C14_Model C14_Spec.
+From DuneV Require Import C14_Params C14_Model C14_Spec.
 Import ListNotations.
 Local Open Scope Z_scope.
 
@@ -10,7 +10,7 @@ Lemma c14_fold_mul : forall E a, fold_left Z.mul E a = a * c14_prod E.
 Proof. induction E as [|e E IH]; intros a; simpl; [lia|]. rewrite IH. ring. Qed.
 
 Lemma c14_product_prod : forall E, c14_product E = c14_prod E.
-Proof. intros E. unfold c14_product. rewrite c14_fold_mul. ring. Qed.
+Proof. intros E. unfold c14_product, c14_param_product_init. rewrite c14_fold_mul. ring. Qed.
 
 Lemma c14_prod_app : forall A B, c14_prod (A ++ B) = c14_prod A * c14_prod B.
 Proof. induction A as [|a A IH]; intros B; cbn [c14_prod app]; [ring|]. rewrite IH. ring. Qed.
@@ -291,8 +291,9 @@ Qed.
 (* ------------------------------------------------------------------ layout_stride *)
 Lemma c14_map_stride_dot : forall St idx, c14_map_stride St idx = c14_dot idx St.
 Proof.
-  unfold c14_map_stride. intros St idx; revert St.
-  induction idx as [|i idx IH]; intros [|s St]; simpl; auto. rewrite IH. reflexivity.
+  assert (G : forall idx St, fold_right (fun is acc => fst is * snd is + acc) 0 (combine idx St) = c14_dot idx St).
+  { induction idx as [|i idx IH]; intros [|s St]; simpl; auto. rewrite IH. reflexivity. }
+  intros St [|i idx]; [reflexivity|]. unfold c14_map_stride. apply G.
 Qed.
 
 Lemma c14_stride_step : forall St idx r, length idx = length St -> (r < length idx)%nat ->
@@ -329,7 +330,7 @@ Proof.
   intros idx E St V HS. rewrite c14_map_stride_dot.
   pose proof (c14_dot_le_sum_span _ _ V _ HS).
   destruct E as [|e E].
-  - inversion V; subst. simpl. lia.
+  - inversion V; subst. simpl. unfold c14_param_stride_rank0_span. lia.
   - rewrite c14_span_size_stride_spec by congruence.
     pose proof (c14_valid_prod_pos _ _ V).
     destruct (Z.eqb_spec (c14_prod (e :: E)) 0); lia.
